@@ -80,61 +80,33 @@ fn vk_no_code(o: Option<Ordering>) -> Option<i8> {
     }
 }
 
-/// the region where /repo is wrong (see the finding harnesses): integer zero against a float in (0, 0.5)
-fn vk_no_region_zero_vs_small(a: u64, bits: u32) -> bool {
-    a == 0 && bits != 0 && bits < 0x3f00_0000
-}
-
-#[cfg_attr(kani, kani::proof)]
-#[cfg_attr(not(kani), test)]
-#[cfg_attr(kani, kani::unwind(4))]
-fn vk_int_num_order_ubig_f32() {
-    let a: u64 = any();
-    let bits: u32 = any();
-    assume(!vk_no_region_zero_vs_small(a, bits));
+/// one comparison, both directions, for the float with the given (concrete or symbolic) fields
+fn vk_no_check_ubig(a: u64, fneg: bool, eb: u32, frac: u32) {
+    let bits = ((fneg as u32) << 31) | (eb << 23) | frac;
     let f = f32::from_bits(bits);
     let v = UBig::from(a);
     let want = vk_no_oracle(false, a, bits);
     assert!(vk_no_code(v.num_partial_cmp(&f)) == want);
     assert!(vk_no_code(f.num_partial_cmp(&v)) == want.map(|c| -c));
+}
+
+#[cfg_attr(kani, kani::proof)]
+#[cfg_attr(not(kani), test)]
+#[cfg_attr(kani, kani::unwind(1))]
+fn vk_int_num_order_probe_e150() {
+    let a: u64 = any();
+    let fneg: bool = any();
+    let frac: u32 = any();
+    assume(frac < (1 << 23));
+    vk_no_check_ubig(a, fneg, 150, frac);
     cover();
 }
 
 #[cfg_attr(kani, kani::proof)]
 #[cfg_attr(not(kani), test)]
-#[cfg_attr(kani, kani::unwind(4))]
-fn vk_int_num_order_ibig_f32() {
-    let x: i64 = any();
-    let bits: u32 = any();
-    let a = x.unsigned_abs();
-    assume(!vk_no_region_zero_vs_small(a, bits));
-    let f = f32::from_bits(bits);
-    let v = IBig::from(x);
-    let want = vk_no_oracle(x < 0, a, bits);
-    assert!(vk_no_code(v.num_partial_cmp(&f)) == want);
-    assert!(vk_no_code(f.num_partial_cmp(&v)) == want.map(|c| -c));
-    cover();
-}
-
-// finding: 0 compared with a float in (0, 0.5) must be Less
-#[cfg_attr(kani, kani::proof)]
-#[cfg_attr(not(kani), test)]
-#[cfg_attr(kani, kani::unwind(4))]
-fn vk_int_num_order_finding_ubig_zero_vs_small() {
-    let bits: u32 = any();
-    assume(vk_no_region_zero_vs_small(0, bits));
-    let f = f32::from_bits(bits);
-    assert!(vk_no_code(UBig::ZERO.num_partial_cmp(&f)) == Some(-1));
-    cover();
-}
-
-#[cfg_attr(kani, kani::proof)]
-#[cfg_attr(not(kani), test)]
-#[cfg_attr(kani, kani::unwind(4))]
-fn vk_int_num_order_finding_ibig_zero_vs_small() {
-    let bits: u32 = any();
-    assume(vk_no_region_zero_vs_small(0, bits));
-    let f = f32::from_bits(bits);
-    assert!(vk_no_code(IBig::ZERO.num_partial_cmp(&f)) == Some(-1));
+#[cfg_attr(kani, kani::unwind(1))]
+fn vk_int_num_order_probe_concrete() {
+    let v = UBig::from(5u64);
+    assert!(v.num_partial_cmp(&2.5f32) == Some(Ordering::Greater));
     cover();
 }
